@@ -52,15 +52,100 @@ def fine_seqs(maxlen):
     return rec([])
 
 
+# ---- middleware exchanges (c16.mw / c16.wiremw) ----
+HOPS = ([[0, 1], [0, 2]] + [[1, p, a, k, v] for p in (0, 1) for a in (0, 1) for k in (1, 2) for v in (1, 2)]
+        + [[2], [3, 0, 0], [3, 1, 0], [3, 2, 0], [3, 1, 1], [4], [5], [6]])
+# a small alphabet for the bounded-exhaustive part: declare, set declared / prefixed, WriteHeader, Write ok / failing,
+# read the request, cancel, panic
+HOPS_SMALL = [[0, 1], [1, 0, 0, 1, 1], [1, 1, 0, 2, 2], [1, 1, 1, 1, 3], [2], [3, 1, 0], [3, 1, 1], [4], [5], [6]]
+COPS = [[0], [1], [2]]
+
+
+def rand_body(rng, errs=(0, 0, 0, 2)):
+    return [rng.randrange(2), [rng.randrange(3) for _ in range(rng.randrange(4))], rng.choice(errs)]
+
+
+def rand_trailers(rng):
+    keys = rng.sample([1, 2, 3], rng.randrange(4))
+    return [[k, [rng.randint(1, 3) for _ in range(rng.randrange(3))]] for k in keys]
+
+
+def rand_server(rng):
+    ops = []
+    for _ in range(rng.randint(2, 9)):
+        ops.append(rng.choice(HOPS + [[5]] * 0 + [[1, 1, 0, 1, 1], [1, 0, 0, 1, 2], [0, 1], [3, 1, 0]] * 2))
+    # cancellation and panics are the rare events
+    ops = [o for o in ops if o[0] not in (5, 6) or rng.randrange(3) == 0]
+    return [rng.choice(["T/x", "T/x", "T/x", "n", ""]), 0, rand_body(rng), rng.randrange(2), ops]
+
+
+def rand_client_tail(rng):
+    nchunks = rng.randrange(4)
+    resp = [rng.randrange(2), [rng.randrange(3) for _ in range(nchunks)], rng.choice((0, 0, 0, 2))]
+    ops = []
+    for _ in range(rng.randint(0, nchunks + 3)):
+        ops.append(rng.choice([[0]] * 6 + [[1], [2]]))
+    return [rand_body(rng), rng.choice((0, 1, 1, 1, 2)), rng.choice((0, 0, 0, 0, 3)), resp, rand_trailers(rng), ops]
+
+
+# ---- fetchTrace scripts (c16.fetch) ----
+def fetch_ok(acts):
+    """A fetch goroutine parked on a slot that is replaced or cleared can only end by the 5 s TraceTimeout; such
+    scripts are kept out of the quick tier (python mini-model of who is parked where).  Returns the script closed
+    by the completions that release whoever is still parked, or None."""
+    slot, parked = {}, {}
+    for a in acts:
+        k, n = a[0], a[1] if len(a) > 1 else None
+        if k == 0 or k == 2:
+            if parked.get(n):
+                return None
+            slot[n] = "open" if k == 0 else None
+        elif k == 1:
+            if slot.get(n) == "open":
+                slot[n] = None          # woken fetchers clear the name; without fetchers it stays done
+                if not parked.get(n):
+                    slot[n] = "done"
+                parked[n] = 0
+        elif k == 3:
+            if slot.get(n) == "open":
+                parked[n] = parked.get(n, 0) + 1
+            else:
+                slot[n] = None          # got the trace or failed: the fetch goroutine clears the name
+    tail = [[1, n, 90 + i] for i, n in enumerate(sorted(parked)) if parked[n]]
+    return list(acts) + tail
+
+
+def fetch_seqs(maxlen):
+    """every script up to renaming of the two names, trace numbers = position + 1"""
+    def rec(prefix, used):
+        yield prefix
+        if len(prefix) == maxlen:
+            return
+        for i in range(min(used + 1, 2)):
+            n, u = NAMES[i], max(used, i + 1)
+            yield from rec(prefix + [[0, n]], u)
+            yield from rec(prefix + [[1, n, len(prefix) + 1]], u)
+            yield from rec(prefix + [[2, n]], u)
+            yield from rec(prefix + [[3, n, 1]], u)
+            yield from rec(prefix + [[3, n, 0]], u)
+    return rec([], 0)
+
+
+# ---- wire wrapper scripts (c16.wire) ----
+WACTS = [[0, 0, 1], [0, 0, 0], [0, 1, 1], [1, 0, "a", 1, 200], [1, 1, "a", 2, 404], [1, 0, "b", 3, 0], [2, 0, 4, 200],
+         [3, "a"], [4, "a"], [5, 0], [5, 1]]
+
+
 class C16(Prop):
     id = "C16"
     props = "C16_Props"
-    coq_files = ("Base", "C16_Model", "C16_Spec", "C16_Proofs", "C16_Conc", "C16_ConcProofs", "C16_Props")
-    models = ("C16_Conc",)   # re-exports C16_Model; its c16_table holds all five kinds
-    packages = {"tr": "internal/tracer"}
+    coq_files = ("Base", "C16_Model", "C16_Spec", "C16_Proofs", "C16_Conc", "C16_ConcProofs", "C16_Mw", "C16_MwProofs", "C16_Props")
+    models = ("C16_Mw",)   # re-exports C16_Conc (which re-exports C16_Model); its c16_table holds all nine kinds
+    packages = {"tr": "internal/tracer", "cc": "internal/app/connectconformance", "rc": "internal/app/referenceclient"}
     # c16.ballowed / c16.tallowed are not generated: their cases are WRITTEN by the free-running Go test
     # (configuration + what was observed) and judged by the model; they are kinds so that a replay file works.
-    kinds = {"c16.tracer": "tr", "c16.builder": "tr", "c16.bfine": "tr", "c16.ballowed": "tr", "c16.tallowed": "tr"}
+    kinds = {"c16.tracer": "tr", "c16.builder": "tr", "c16.bfine": "tr", "c16.ballowed": "tr", "c16.tallowed": "tr",
+             "c16.mw": "tr", "c16.fetch": "cc", "c16.wire": "rc", "c16.wiremw": "rc"}
     rule = ("c16.tracer: EVERY sequence of Init/Complete/AwaitBegin/Clear/CtxDone of length <= 5 over 2 names and <= 4 over 3 names "
             "(thorough: <= 6 and <= 5) with 2 waiters, up to renaming, on a real Tracer with waiters parked in the real Await on real "
             "contexts, plus random sequences of length 6-14; c16.builder: EVERY sequence of add/build of length <= 5 (thorough 6) over "
@@ -111,8 +196,12 @@ class C16(Prop):
     def nontrivial(self, case, res):
         if case[0] == "c16.tracer":
             return "(2 " in res or "(4)" in res or "(1)" in res
-        if case[0] == "c16.bfine":
+        if case[0] in ("c16.bfine", "c16.mw"):
             return res != "(() ())"
+        if case[0] == "c16.fetch":
+            return "(1 " in res
+        if case[0] == "c16.wiremw":
+            return res.startswith("((2 ")
         return len(res) > 2
 
     def describe(self, case, g, m):
@@ -122,6 +211,15 @@ class C16(Prop):
             return ("free-running goroutines: impl = 1 if the code shows the recorded outcome (last argument) again, "
                     "model = 1 if SOME interleaving of the goroutines' critical sections gives it; 1 against 0 = the code "
                     "does what no interleaving of the proved model does")
+        if case[0] == "c16.mw":
+            return ("middleware call sites: the collector calls as they were AT Complete (events, error, Response.Trailer) and the same "
+                    "traces after the exchange differ from the proved model (a trace delivered before its trailers were recorded, "
+                    "or changed after completion, shows here)")
+        if case[0] == "c16.fetch":
+            return ("results.go fetchTrace: what testResults stored per test name / the Tracer shows / the report prints differs "
+                    "from the proved model (stored: (0) nothing, (1 t) trace t, (2) a nil trace)")
+        if case[0] in ("c16.wire", "c16.wiremw"):
+            return "wire_details.go: wrapper contents / examineWireDetails results / forwarding to the Tracer differ from the proved model"
         if case[0] == "c16.bfine":
             return "two-step builder (collector call held after the critical section): calls / held goroutines differ from the proved model"
         return "builder: collector calls (count, events, indices, error) differ from the proved model"
@@ -168,6 +266,57 @@ class C16(Prop):
                 else:
                     seq.append(rng.choice(BACTS))
             yield ["c16.bfine", rng.choice(["n", "n", "n", ""]), rng.randrange(2), seq]
+
+        # ---- middleware call sites: real TracingHandler / TracingRoundTripper, scripted handler / transport / consumer ----
+        L = 3 if quick else 4
+        for n in range(0, L + 1):
+            for i, ops in enumerate(itertools.product(HOPS_SMALL, repeat=n)):
+                yield ["c16.mw", "T/x", 0, [i % 2, [1] if i % 3 else [], 0 if i % 5 else 2], (i // 2) % 2, [list(o) for o in ops]]
+        for n in range(0, 5 if quick else 7):
+            for i, ops in enumerate(itertools.product(COPS, repeat=n)):
+                for resp in ([0, [2, 1], 0], [1, [1, 2], 0], [1, [1], 2], [0, [], 0]):
+                    yield ["c16.mw", "T/x", 1, [i % 2, [1], 0], (1, 0, 2, 1)[i % 4], 0, resp, [[1, [1]], [2, []]], [list(o) for o in ops]]
+        for _ in range(4000 if quick else 150000):
+            yield ["c16.mw"] + rand_server(rng)
+        for _ in range(3000 if quick else 100000):
+            yield ["c16.mw", rng.choice(["T/x", "T/x", "T/x", "n", ""]), 1] + rand_client_tail(rng)
+        # ---- consumer: results.go fetchTrace on a real Tracer ----
+        for acts in fetch_seqs(4 if quick else 5):
+            full = fetch_ok(acts)
+            if full is not None:
+                yield ["c16.fetch", full, NAMES[:2]]
+        for _ in range(1500 if quick else 40000):
+            acts = []
+            for i in range(rng.randint(5, 12)):
+                k = rng.choice([0, 0, 1, 1, 1, 2, 3, 3, 3, 3])
+                n = rng.choice(NAMES[:rng.choice([1, 2, 2])])
+                cand = acts + [{0: [0, n], 1: [1, n, i + 1], 2: [2, n], 3: [3, n, rng.choice([1, 1, 1, 0])]}[k]]
+                if fetch_ok(cand) is not None:
+                    acts = cand
+            yield ["c16.fetch", fetch_ok(acts), NAMES[:2]]
+        # ---- consumer: wire_details.go ----
+        for n in range(0, (4 if quick else 5) + 1):
+            for i, acts in enumerate(itertools.product(WACTS, repeat=n)):
+                yield ["c16.wire", i % 2 if n >= 3 else 1, [list(a) for a in acts], [0, 1], NAMES[:2]]
+        for _ in range(2000 if quick else 50000):
+            acts = []
+            for i in range(rng.randint(5, 12)):
+                c, n = rng.randrange(3), rng.choice(NAMES[:2])
+                acts.append(rng.choice([[0, c, 1], [0, c, 1], [0, c, 0], [1, c, n, i + 1, rng.choice([0, 200, 404])],
+                                        [1, c, n, i + 1, 200], [2, c, i + 1, rng.choice([0, 200])], [3, n], [3, n], [4, n], [5, c]]))
+            yield ["c16.wire", rng.randrange(2), acts, [0, 1, 2], NAMES[:2]]
+        for _ in range(2500 if quick else 60000):
+            yield (["c16.wiremw", rng.choice(["T/x", "T/x", "T/x", ""]), rng.choice([1, 1, 1, 0]), rng.choice([1, 1, 0]),
+                    rng.choice([1, 1, 1, 0]), rng.choice([200, 200, 404])] + rand_client_tail(rng))
+        # (last, so that the shrinker works on cheaper scripts first: every candidate containing (4) waits 5 s)
+        # one script in which the 5 s TraceTimeout really passes: the orphaned fetch goroutine gives up, and its
+        # unconditional Clear removes the name's NEW, completed slot
+        yield ["c16.fetch", [[0, "a"], [3, "a", 1], [2, "a"], [0, "a"], [1, "a", 7], [4], [3, "a", 1], [0, "b"], [1, "b", 8], [3, "b", 1]], NAMES[:2]]
+        if not quick:
+            for _ in range(12):
+                acts = [[rng.choice([0, 1, 2, 3]), rng.choice(NAMES[:2])] for _ in range(rng.randint(4, 9))]
+                acts = [a + ([i + 1] if a[0] == 1 else [rng.randrange(2)] if a[0] == 3 else []) for i, a in enumerate(acts)]
+                yield ["c16.fetch", acts + [[4]] + [[3, "a", 1], [3, "b", 1]], NAMES[:2]]
 
     def _race_run(self, ctx, testname, ops, timeout):
         binp = core.go_test_bin(self, self.packages["tr"], race=True)
